@@ -36,6 +36,7 @@ STRUCT_ARITH = {}       # cls -> fn(ip, opname, a, b)
 STRUCT_INPLACE = {}     # cls -> fn(ip, opname, cur, rhs) -> (handled, value)
 STRUCT_IS = {}          # cls -> fn(ip, a, b) -> bool/z3
 STRUCT_EQ = {}          # cls -> fn(ip, a, b) -> bool/z3
+STRUCT_LESS = {}        # cls -> fn(ip, a, b, strict) -> bool/z3
 STRUCT_TRUTH = {}       # cls -> fn(ip, v) -> bool/z3
 STRUCT_METHODS = {}     # (cls, name) -> fn(ip, obj, args, kwargs)
 STRUCT_ATTR = {}        # (cls, name) -> fn(ip, obj)
@@ -116,6 +117,8 @@ class Contract:
     def apply(self, vc, a):
         """Use of the contract at a call site."""
         from .vc import RaiseEx
+        a = dict(a)
+        a["_callsite"] = True
         for name, f in self.pre(vc, a):
             vc.check(f"pre@{self.key.split(':')[1]}#{name}", f)
         for exc, when in self.raises(vc, a):
@@ -183,7 +186,7 @@ def reset():
     CLASS_MODELS.clear()
     INLINE.clear()
     del ASSUMPTIONS[:]
-    for d in (SUBCLASS, STRUCT_ARITH, STRUCT_INPLACE, STRUCT_IS, STRUCT_EQ,
+    for d in (SUBCLASS, STRUCT_LESS, STRUCT_ARITH, STRUCT_INPLACE, STRUCT_IS, STRUCT_EQ,
               STRUCT_TRUTH, STRUCT_METHODS, STRUCT_ATTR, STRUCT_ITER,
               STRUCT_SYMITER, STRUCT_LEN, STRUCT_SUBSCRIPT, STRUCT_STORE,
               STRUCT_CONTAINS, STRUCT_ISINSTANCE, CLASS_ATTR, LEMMAS):
